@@ -55,14 +55,16 @@ theorem clean_takeWhile {p : Char → Bool} (hp : ∀ c, p c = true → cleanCha
 all on the same line; the column moves by `sz'` plus the tab adjustment. -/
 theorem escape_spec (s : LexSt) (sz : Nat) (t : Char) (k : Nat)
     (hp : peek1 s.rest 0 = some ('\\', sz)) (hq : peek1 s.rest sz = some (t, k)) (ht : t ≠ '\n') :
-    let r := escape s sz t
+    let r := escape s sz t k
     1 ≤ r.2.1 ∧ r.2.1 ≤ s.rest.length ∧ (∀ d ∈ r.2.2.1, HasHl d) ∧
     advPos (s.line, s.col) (s.rest.take r.2.1) = (s.line, s.col + r.2.2.2 + r.2.1) := by
   obtain ⟨hsz1, hszlen, _⟩ := peek1_spec hp
   simp only [Nat.zero_add] at hszlen
   have hcl : Clean (s.rest.take sz) := peek1_clean hp (by decide)
   obtain ⟨hlen1, r, hr, hrt⟩ := peek1_first_raw hq
+  obtain ⟨hk1, hklen, hkspec⟩ := peek1_spec hq
   have htake : s.rest.take (sz + 1) = s.rest.take sz ++ [r] := take_succ_of_head hr
+  have htakek : s.rest.take (sz + k) = s.rest.take sz ++ (s.rest.drop sz).take k := List.take_add
   -- the generic "sz+1 clean characters" conclusion
   have clean1 : cleanChar r → advPos (s.line, s.col) (s.rest.take (sz + 1)) = (s.line, s.col + 0 + (sz + 1)) := by
     intro hrc
@@ -70,16 +72,29 @@ theorem escape_spec (s : LexSt) (sz : Nat) (t : Char) (k : Nat)
       rw [htake]; exact clean_append hcl (by intro x hx; simp at hx; subst hx; exact hrc)
     rw [advPos_clean _ _ this]
     simp [List.length_take]; omega
+  -- the spelling of `t` is clean unless it is a raw tab
+  have cleank : t ≠ '\t' → advPos (s.line, s.col) (s.rest.take (sz + k)) = (s.line, s.col + 0 + (sz + k)) := by
+    intro htab
+    have hc2 : Clean ((s.rest.drop sz).take k) := by
+      rcases hkspec with ⟨rfl, hh⟩ | ⟨_, hc, _⟩
+      · intro x hx
+        cases hd : s.rest.drop sz with
+        | nil => rw [hd] at hx; simp at hx
+        | cons y ys =>
+          rw [hd] at hh hx
+          simp at hh hx
+          subst hh; subst hx
+          exact ⟨ht, htab⟩
+      · exact hc
+    rw [htakek, advPos_clean _ _ (clean_append hcl hc2)]
+    simp [List.length_take]; omega
   unfold escape
   simp only
   split
   · -- simple escape
     rename_i hs
-    have hrc : cleanChar r := by
-      rcases hrt with ⟨_, rfl⟩ | ⟨h, _⟩
-      · exact simpleEscapes_clean r (by simpa using hs)
-      · exact h
-    exact ⟨Nat.le_add_left 1 sz, hlen1, by simp, clean1 hrc⟩
+    have htab : t ≠ '\t' := (simpleEscapes_clean t (by simpa using hs)).2
+    exact ⟨Nat.le_trans hsz1 (Nat.le_add_right _ _), hklen, by simp, cleank htab⟩
   · split
     · -- \x
       rename_i _ hx
@@ -123,9 +138,15 @@ theorem escape_spec (s : LexSt) (sz : Nat) (t : Char) (k : Nat)
         rw [take_add_prefix hpre, advPos_clean _ _ (clean_append hcl hcl2)]
         simp [List.length_take]; omega
       · -- unknown escape
-        refine ⟨Nat.le_add_left 1 sz, hlen1, by intro d hd; simp at hd; subst hd; exact hasHl_mkDiag _ _ _ _, ?_⟩
+        refine ⟨Nat.le_trans hsz1 (Nat.le_add_right _ _), hklen,
+          by intro d hd; simp at hd; subst hd; exact hasHl_mkDiag _ _ _ _, ?_⟩
         by_cases htab : t = '\t'
         · subst htab
+          have hk : k = 1 := by
+            rcases hkspec with ⟨h, _⟩ | ⟨_, _, h⟩
+            · exact h
+            · exact absurd rfl h.2
+          subst hk
           have hr' : r = '\t' := by
             rcases hrt with ⟨_, h⟩ | ⟨_, h⟩
             · exact h
@@ -137,15 +158,11 @@ theorem escape_spec (s : LexSt) (sz : Nat) (t : Char) (k : Nat)
           simp
           have := Nat.mod_lt (s.col + sz - 1) (by decide : 0 < 4)
           omega
-        · have hrc : cleanChar r := by
-            rcases hrt with ⟨_, rfl⟩ | ⟨h, _⟩
-            · exact ⟨ht, htab⟩
-            · exact h
-          have hb : (t == '\t') = false := by simp [htab]
+        · have hb : (t == '\t') = false := by simp [htab]
           simp only [hb, Bool.false_eq_true, ↓reduceIte]
-          exact clean1 hrc
+          exact cleank htab
 
-theorem escape_head (s : LexSt) (sz : Nat) (t : Char) : (escape s sz t).1.head? = some '\\' := by
+theorem escape_head (s : LexSt) (sz : Nat) (t : Char) (k : Nat) : (escape s sz t k).1.head? = some '\\' := by
   unfold escape
   simp only
   repeat' split
@@ -177,7 +194,7 @@ theorem escOf_spec (ue : Bool) (s : LexSt) (c : Char) (sz : Nat) (hp : peek1 s.r
         have ht' : t ≠ '\n' := by simpa using ht
         right
         obtain ⟨h1, h2, h3, h4⟩ := escape_spec s sz t k hp hq ht'
-        exact ⟨rfl, escape_head s sz t, h1, h2, h3, h4⟩
+        exact ⟨rfl, escape_head s sz t k, h1, h2, h3, h4⟩
       · left; rfl
     · left; rfl
   · left; rfl
